@@ -1,5 +1,6 @@
 SPECIFICATION TSpec
 CONSTANT TranslateVaddr = TRUE
+CONSTANT NoteAlignPerSegment = TRUE
 CONSTANT RemoteNameCap = FALSE
 INVARIANT Verdict
 POSTCONDITION Accepted
